@@ -25,8 +25,13 @@ pub fn th_harness(prop: &'static str, h: crate::thworld::ThHarness) -> Harness {
     let h2 = h.clone();
     Harness {
         name: h.name.clone(),
-        bounds: Bounds { depth: 0, dev: h.bound, d_all: 0, merge: false, shard: (0, 1), cap_s: h.cap_s, shard_depth: 3 },
-        describe: h.describe.clone(),
+        bounds: Bounds { depth: 0, dev: h.bound, d_all: h.free_bound as usize, merge: false, shard: (0, 1), cap_s: h.cap_s, shard_depth: 3 },
+        describe: {
+            let mut d = h.describe.clone();
+            d["free_switch_bound"] = if h.free_bound == 0 { serde_json::json!("unbounded") } else { serde_json::json!(h.free_bound) };
+            d["wall_cap_s"] = serde_json::json!(h.cap_s);
+            d
+        },
         run: Box::new(move |b| {
             let mut stats = Stats::default();
             let mut sx = crate::schx::Stats::default();
@@ -51,7 +56,7 @@ pub fn th_harness(prop: &'static str, h: crate::thworld::ThHarness) -> Harness {
                 }
                 r.exec
             };
-            crate::schx::explore(b.dev, b.shard, b.cap_s, &mut run_one, &mut sx);
+            crate::schx::explore(b.dev, b.d_all as u32, b.shard, b.cap_s, &mut run_one, &mut sx);
             stats.executions = sx.executions;
             stats.transitions = sx.points;
             stats.max_depth = sx.max_points;
@@ -132,8 +137,44 @@ pub fn harnesses(prop: &str, tier: &str) -> Vec<Harness> {
     }
 }
 
-fn c02(quick: bool) -> Vec<Harness> {
+fn thops_set(prop: &'static str, quick: bool) -> Vec<Harness> {
+    use crate::thworld::{Step, ThOpsCfg, thops};
+    // Three threads plus kernel actors: ~100 points per schedule.
+    let pb = 2;
     let mut v = Vec::new();
+    let mk = |tasks: Vec<(Kind, Vec<Step>, Option<usize>)>, canary: bool, cq: Option<u32>, c0: u32| ThOpsCfg { prop, sq: 4, cq, c0_cq: c0, tasks, canary, ring_polls: 4, pool: (4, 8) };
+    match prop {
+        "C02" => {
+            v.push(mk(vec![(Kind::MultishotRead, vec![Step::More, Step::More, Step::FinalZero], None), (Kind::ReadVec, vec![Step::Ok], None)], false, None, 0));
+            v.push(mk(vec![(Kind::SendZc, vec![Step::Ok, Step::Notif], None), (Kind::WriteVec, vec![Step::Ok], None)], false, None, 0));
+        }
+        "C05" => {
+            v.push(mk(vec![(Kind::ReadVec, vec![Step::Ok], None), (Kind::MultishotRead, vec![Step::More, Step::FinalZero], None)], true, Some(4), 0));
+            v.push(mk(vec![(Kind::ReadVec, vec![Step::Ok], None), (Kind::WriteVec, vec![Step::Ok], None)], true, Some(4), 0xffff_fffe));
+        }
+        "C01" | "C06" => {
+            v.push(mk(vec![(Kind::ReadVec, vec![Step::Ok], Some(1))], false, None, 0));
+            v.push(mk(vec![(Kind::SendZc, vec![Step::Ok, Step::Notif], Some(1))], false, None, 0));
+            v.push(mk(vec![(Kind::MultishotRead, vec![Step::More, Step::More, Step::FinalZero], Some(2)), (Kind::ReadVec, vec![Step::Eintr, Step::Ok], None)], false, None, 0));
+        }
+        _ => {}
+    }
+    v.into_iter()
+        .map(|c| {
+            // The scribbling actor is one more alternative at every point.
+            let pb = if quick && c.canary { 1 } else { pb };
+            let mut h = thops(c, pb);
+            // Where no thread can continue any of ~5 alternatives is free under
+            // a preemption bound alone; bound those deviations too.
+            h.free_bound = if quick { 1 } else { 3 };
+            h.cap_s = if quick { 0 } else { 600 };
+            th_harness(prop, h)
+        })
+        .collect()
+}
+
+fn c02(quick: bool) -> Vec<Harness> {
+    let mut v = thops_set("C02", quick);
     let d = |q: usize, t: usize| if quick { q } else { t };
     let mut cfg = Cfg::base("C02");
     cfg.kinds = vec![Kind::ReadVec, Kind::WriteVec];
@@ -179,7 +220,7 @@ fn c02(quick: bool) -> Vec<Harness> {
 const WRAP_C0: &[u32] = &[0, 1, 0x7fff_ffff, 0x8000_0000, 0xffff_fffc, 0xffff_fffe, 0xffff_ffff];
 
 fn c05(quick: bool) -> Vec<Harness> {
-    let mut v = Vec::new();
+    let mut v = thops_set("C05", quick);
     let d = |q: usize, t: usize| if quick { q } else { t };
     let raw = vec![
         (0u64, 0i32, 0u32),
@@ -585,7 +626,7 @@ fn drop_cfg(prop: &'static str, preset: Vec<Kind>) -> Cfg {
 }
 
 fn c06(quick: bool) -> Vec<Harness> {
-    let mut v = Vec::new();
+    let mut v = thops_set("C06", quick);
     let d = |q: usize, t: usize| if quick { q } else { t };
     use Kind::*;
     let kinds = [ReadVec, WriteVec, ReadVectored2, RecvFrom, SendZc, SendVectoredZc, MultishotRead, MultishotAccept, Statx, Connect, Rename];
@@ -610,7 +651,7 @@ fn c06(quick: bool) -> Vec<Harness> {
 }
 
 fn c01(quick: bool) -> Vec<Harness> {
-    let mut v = Vec::new();
+    let mut v = thops_set("C01", quick);
     let d = |q: usize, t: usize| if quick { q } else { t };
     use Kind::*;
     let kinds = [
